@@ -429,6 +429,9 @@ func (c *Client) recv(keepaliveQuit chan<- struct{}, keepaliveDone <-chan struct
 	for {
 		val, err := stanza.NextPacket(c.transport.GetDecoder())
 		if err != nil {
+			// The connection is gone: a Close that is under way (the keepalive's, after a failed
+			// ping) need not wait for the closing tag of the server any longer.
+			c.transport.ReceivedStreamClose()
 			stopKeepalive()
 			c.ErrorHandler(err)
 			c.disconnected(c.Session.SMState)
